@@ -282,14 +282,21 @@ pub fn run_case(ctx: &mut Ctx, fam: &str, _k: u64, r: &mut Rng) {
         let mut x = it.input.clone();
         let mut saturated = false;
         let offs = spec.param_offsets();
-        for (li, l) in spec.layers.iter().enumerate() {
-            if let Some((pre, out)) = layer_ref_n(l, &pb[offs[li]..offs[li] + l.n_params()], &x) {
-                // (single precision: exp(+-20) squared still leaves every quotient term a normal number)
-                if !(pre.max_abs() <= if IS_F32 { 20.0 } else { 100.0 }) {
-                    saturated = true;
+        // (every application of the stack when the model is applied to its own output)
+        for _ in 0..apps {
+            for (li, l) in spec.layers.iter().enumerate() {
+                if let Some((pre, out)) = layer_ref_n(l, &pb[offs[li]..offs[li] + l.n_params()], &x) {
+                    // (single precision: exp(+-20) squared still leaves every quotient term a normal number)
+                    if !(pre.max_abs() <= if IS_F32 { 20.0 } else { 100.0 }) {
+                        saturated = true;
+                    }
+                    x = out;
                 }
-                x = out;
             }
+        }
+        // an error scale that is not a number (inf - inf in the running bound of a saturated quotient) bounds nothing
+        if scales.iter().flatten().any(|s| !s.is_finite()) {
+            saturated = true;
         }
         if saturated {
             ctx.count("histories_stopped_when_saturating", 1);
